@@ -187,6 +187,16 @@ func VH18a_modes() {
 			verif.Reach("recv-immediate")
 			break
 		}
+		if verif.Choice("exact-clock", 2) == 1 {
+			// the clock is run to one tick before the deadline, then to the deadline itself (solver-decided which
+			// timers are due): not timed out before, returned at the deadline - "never hanging beyond it"
+			verif.RunClockTo(t0 + d - 1)
+			verif.Assert(!(g.Done() && err == mangos.ErrRecvTimeout), lab+"/recv-timed-out-early")
+			verif.RunClockTo(t0 + d)
+			verif.Assert(g.Done(), lab+"/recv-hangs-beyond-deadline")
+			verif.Reach("recv-timeout-exact")
+			break
+		}
 		fired := verif.FireTimer()
 		verif.Assert(fired, lab+"/recv-deadline-set-but-no-timer-pending")
 		verif.Assert(g.Done(), lab+"/recv-hangs-beyond-deadline")
@@ -234,6 +244,14 @@ func VH18a_modes() {
 					break
 				}
 				continue
+			}
+			if verif.Choice("exact-clock", 2) == 1 {
+				verif.RunClockTo(t1 + d - 1)
+				verif.Assert(!(g.Done() && err == mangos.ErrSendTimeout), lab+"/send-timed-out-early")
+				verif.RunClockTo(t1 + d)
+				verif.Assert(g.Done(), lab+"/send-hangs-beyond-deadline")
+				verif.Reach("send-timeout-exact")
+				break
 			}
 			// blocked: the deadline timers of earlier, completed calls may still be pending and fire first
 			fired := false
